@@ -63,6 +63,11 @@ package gi
 // C19: snapshot writes, after the defflavor form of every flavor, the methods defined on that flavor itself:
 // every method name is asked for each of its four kinds (primary, before, after, whopper), inherited methods
 // excluded (they are written with the flavor that defines them); none of the three loops is left early.
+// the flavors are written in the order in which the placing closure appended them: it appends a flavor only
+// after it has placed every listed flavor the flavor is built from (the recursion comes before the append)
+//@ func gi.appendSnapshotFlavors$2
+//@   property C19
+//@   full-loop rangeindex
 //@ func gi.appendSnapshotFlavors
 //@   property C19
 //@   on-call DefMethodList own-methods-of-this-flavor: !$arg2 && $arg1 == daemon
